@@ -720,3 +720,126 @@ func TestC11_DeepUnknown(t *testing.T) {
 	rec.Sample(map[string]interface{}{"struct": "ApplicationException", "unknown_field_depth": 64, "positions": 3})
 	rec.SetExhaustive()
 }
+
+// ---- the states of the optional map: absent / empty / filled, across reads into one receiver ----------------
+
+// mapStatesScenario runs the fixed enumeration of c11_map_states and counts its evaluations in b.
+func mapStatesScenario(b *evid.Batch) (viol *evid.Violation) {
+	type rcv interface {
+		FastRead([]byte) (int, error)
+	}
+	kinds := []struct {
+		name  string
+		id    byte
+		mk    func() rcv
+		extra func(rcv) map[string]string
+	}{
+		{"Base", 6, func() rcv { return &base.Base{} }, func(r rcv) map[string]string { return r.(*base.Base).Extra }},
+		{"BaseResp", 3, func() rcv { return &base.BaseResp{} }, func(r rcv) map[string]string { return r.(*base.BaseResp).Extra }},
+	}
+	str := func(s string) []byte { return append([]byte{0, 0, 0, byte(len(s))}, s...) }
+	for _, k := range kinds {
+		two := append([]byte{0x0d, 0, k.id, 0x0b, 0x0b, 0, 0, 0, 2}, append(append(str("k1"), str("v1")...), append(str("k2"), str("v2")...)...)...)
+		two = append(two, 0)
+		empty := []byte{0x0d, 0, k.id, 0x0b, 0x0b, 0, 0, 0, 0, 0}
+		// (a)
+		for cut := 0; cut < len(two); cut++ {
+			x := k.mk()
+			if _, err := x.FastRead(two[:cut:cut]); err == nil {
+				viol = evid.Failf("%s.FastRead accepted a message cut to %d of %d bytes", k.name, cut, len(two))
+				break
+			}
+			reached := cut >= 9 // the 3-byte field header and the 6-byte map header are complete
+			if _, err := x.FastRead([]byte{0}); err != nil {
+				viol = evid.Failf("%s.FastRead of a message without fields: %v", k.name, err)
+				break
+			}
+			if m := k.extra(x); !reached && m != nil {
+				viol = evid.Failf("%s: a read was rejected %d bytes into a message (before the header of the Extra map was complete), then a message without the field was read into the same receiver: Extra is a map of %d entries, want it absent (nil)", k.name, cut, len(m))
+				break
+			}
+			b.Evals++
+			b.Distinct++
+			b.Nontrivial++
+		}
+		if viol != nil {
+			break
+		}
+		// (b) and (c)
+		for _, order := range [][2][]byte{{empty, two}, {two, empty}, {empty, empty}, {two, two}} {
+			x := k.mk()
+			if _, err := x.FastRead(order[0]); err != nil {
+				viol = evid.Failf("%s.FastRead: %v", k.name, err)
+				break
+			}
+			held := k.extra(x)
+			n0 := len(held)
+			snapshot := map[string]string{}
+			for kk, vv := range held {
+				snapshot[kk] = vv
+			}
+			if _, err := x.FastRead(order[1]); err != nil {
+				viol = evid.Failf("%s.FastRead (second message): %v", k.name, err)
+				break
+			}
+			if len(held) != n0 {
+				viol = evid.Failf("%s: the map obtained from the first read (%d entries), kept by the caller, has %d entries after the same receiver read another message", k.name, n0, len(held))
+				break
+			}
+			for kk, vv := range snapshot {
+				if held[kk] != vv {
+					viol = evid.Failf("%s: the map obtained from the first read was changed by the second read into the same receiver", k.name)
+				}
+			}
+			now := k.extra(x)
+			wantN := 0
+			if len(order[1]) > len(empty) {
+				wantN = 2
+			}
+			if now == nil || len(now) != wantN {
+				viol = evid.Failf("%s: after the second read Extra has %d entries (nil: %v), the message holds %d", k.name, len(now), now == nil, wantN)
+				break
+			}
+			// writing into the receiver's current map must not show in the kept one
+			now["verif-probe"] = "x"
+			if _, leaked := held["verif-probe"]; leaked {
+				viol = evid.Failf("%s: the map kept from the first read and the receiver's map after the second read are the same map", k.name)
+				break
+			}
+			// ... nor in the map a fresh receiver gets from the same bytes
+			y := k.mk()
+			y.FastRead(order[1])
+			if _, leaked := k.extra(y)["verif-probe"]; leaked {
+				viol = evid.Failf("%s: an entry written into one receiver's decoded map shows up in the map another receiver decoded from the same bytes", k.name)
+				break
+			}
+			b.Evals++
+			b.Distinct++
+			b.Nontrivial++
+		}
+		if viol != nil {
+			break
+		}
+	}
+	return viol
+}
+
+func TestC11_MapStates(t *testing.T) {
+	rec := evid.New("C11", "c11_map_states", "enumeration for Base and BaseResp: (a) a read that fails at every cut inside the 6-byte header of the Extra map (or anywhere else in a message that holds only that field), followed by a complete message WITHOUT the field into the same receiver: the map stays absent (nil) unless an earlier read had got as far as the map; (b) a read that yields an empty map, the caller keeps that map, the same receiver then reads a message with two entries: the kept map stays empty and is not the receiver's new map; (c) the same with a filled map kept and an empty one read; every (type, scenario, cut) is one evaluation")
+	defer rec.Flush()
+	b := evid.NewBatch()
+	viol := mapStatesScenario(b)
+	if viol != nil {
+		failEnum(t, rec, "c11_map_states", struct{}{}, viol)
+	}
+	rec.Merge(b)
+	rec.SetExhaustive()
+}
+
+func init() {
+	register("c11_map_states", func(c struct{}, cv *cov) *evid.Violation {
+		// the enumeration is small and fixed: the replay runs all of it
+		cv.nontrivial = true
+		return mapStatesScenario(evid.NewBatch())
+	})
+}
